@@ -125,3 +125,32 @@ def replay_generic(pid, path):
     if p.returncode == 1:
         print("VIOLATION property=%s replay=%s" % (pid, path))
     sys.exit(p.returncode)
+
+
+# ---------------------------------------------------------------------------------------------
+# generic: TLC model config + TLC emitter config + harness replay sub-command
+
+def emit_family(pid, module, cfg, subcmd, rule, note, level="model_checking", extra_args=None, workers=8,
+                assumptions=None, model_cfg=None, timeout=1800):
+    vh = build_harness()
+    check_alphabet(vh)
+    model = run_tlc(module, (model_cfg or cfg) + ".cfg", timeout=timeout, workers=workers)
+    tlc_must_pass(model, "%s invariants (%s)" % (module, cfg))
+    emit = run_tlc(module, cfg + "_emit.cfg", timeout=timeout, workers=workers)
+    tlc_must_pass(emit, "%s emitter (%s)" % (module, cfg))
+    rc, rep = harness_run(vh, [subcmd, emit["out"], "@REPORT", "seed=%d" % seed()] + (extra_args or []))
+    cov = merge_cov(model, emit, rep, {"rule": rule, "exhaustive": True, "explanation": note})
+    if not cov["samples"]:
+        cov["samples"] = [{"note": "no case sampled"}]
+    finish(pid, level, cov, rep["violations"] or [], assumptions=assumptions or [],
+           inconclusive=rep.get("inconclusive"), drift=rep.get("model_drift"))
+
+
+def check_C14():
+    t = "Quick" if tier() == "quick" else "Thor"
+    emit_family("C14", "MCReader", "Reader_" + t, "reader-replay",
+                "every archive with <= 3 sections over the block alphabet (incl. CIDv0, identity, empty data, varint-boundary lengths) x 3 root lists x "
+                "{CARv1, CARv2, CARv2 padded+sorted index, CARv2 index-less with 1413 bytes of data padding} x every Next/SkipNext choice string, "
+                "each replayed on bytes.Reader, a plain counting io.Reader and *os.File; distinct = behaviours that mix both calls",
+                "TLC enumerates the complete behaviour tree of Reader.tla and checks OffsetExact/NoOverread/SameCidSequence on it; every maximal behaviour is replayed",
+                assumptions=["archives are built by the reference encoder; the spec's offsets are compared with BlockMetadata and with the bytes at SourceOffset"])
